@@ -404,7 +404,7 @@ class DetachedServer(ServerBase):
             raise RuntimeError(error_payload)
 
         tid = error_payload[0]
-        if tid not in self.mailbox_to_task_dict:
+        if tid not in self.mailbox_to_task_dict or tid not in self.mailboxes:
             return  # Silently discard errors from cancelled tasks
 
         conn = self.tasks[self.mailbox_to_task_dict[tid]][1]
